@@ -22,7 +22,7 @@
 (***************************************************************************)
 EXTENDS Naturals, Sequences, TLC, Bitwise, Json
 
-CONSTANTS Kind,       \* "int" | "bool" | "ptr" | "float"
+CONSTANTS Kind,       \* "int" | "bool" | "ptr" | "float" | "flag" (atomic_flag: test_and_set / clear, with fences in between)
           NL, B,      \* limbs and limb base
           MaxDepth,
           FullOps     \* TRUE: whole operation alphabet at every depth; FALSE: reduced operand set below depth 1
@@ -51,29 +51,30 @@ Operands ==
     [] Kind = "bool"  -> {Zero, Num(1)}
     [] Kind = "ptr"   -> {Num(100), Num(101), Num(103)}       \* element indices into the harness' array
     [] Kind = "float" -> {Num(7), Num(8), Num(9)}     \* never driven negative within the depth bound
+    [] Kind = "flag"  -> {}
 Deltas ==   \* second operand of arithmetic operations
   CASE Kind = "int"   -> Operands
     [] Kind = "ptr"   -> {Num(0), Num(1), Num(3)}
     [] Kind = "float" -> {Num(0), Num(1), Num(2)}
     [] OTHER          -> {}
 Inits == CASE Kind = "int" -> {Zero, Num(1), Max, Sign, SignM1} [] Kind = "bool" -> {Zero, Num(1)}
-           [] Kind = "ptr" -> {Num(100)} [] Kind = "float" -> {Num(8)}
+           [] Kind = "ptr" -> {Num(100)} [] Kind = "float" -> {Num(8)} [] Kind = "flag" -> {Zero}
 
 NoArg == <<>>
 
-ValueOps   == {"store", "xchg", "assign"}
+ValueOps   == IF Kind = "flag" THEN {} ELSE {"store", "xchg", "assign"}
 ArithOps   == CASE Kind \in {"int", "ptr", "float"} -> {"fadd", "fsub", "add_assign", "sub_assign"} [] OTHER -> {}
 BitOps     == IF Kind = "int" THEN {"fand", "for", "fxor", "and_assign", "or_assign", "xor_assign"} ELSE {}
 StepOps    == IF Kind \in {"int", "ptr"} THEN {"pre_inc", "post_inc", "pre_dec", "post_dec"} ELSE {}
-ReadOps    == {"load", "conv"}
+ReadOps    == IF Kind = "flag" THEN {"tas", "clear", "fence"} ELSE IF Kind = "bool" THEN {"load", "conv", "fence"} ELSE {"load", "conv"}
 
 \* operation instances: [op, arg, exp, spur]
 Instances(v) ==
        {[op |-> o, arg |-> NoArg, exp |-> NoArg, spur |-> FALSE] : o \in ReadOps \cup StepOps}
   \cup {[op |-> o, arg |-> a, exp |-> NoArg, spur |-> FALSE] : o \in ValueOps, a \in Operands}
   \cup {[op |-> o, arg |-> a, exp |-> NoArg, spur |-> FALSE] : o \in ArithOps \cup BitOps, a \in Deltas}
-  \cup {[op |-> "cas_strong", arg |-> a, exp |-> e, spur |-> FALSE] : a \in Operands, e \in Operands \cup {v}}
-  \cup {[op |-> "cas_weak", arg |-> a, exp |-> e, spur |-> s] : a \in Operands, e \in Operands \cup {v}, s \in BOOLEAN}
+  \cup {[op |-> "cas_strong", arg |-> a, exp |-> e, spur |-> FALSE] : a \in Operands, e \in (IF Kind = "flag" THEN {} ELSE Operands \cup {v})}
+  \cup {[op |-> "cas_weak", arg |-> a, exp |-> e, spur |-> s] : a \in Operands, e \in (IF Kind = "flag" THEN {} ELSE Operands \cup {v}), s \in BOOLEAN}
 
 One == Num(1)
 T == "true"
@@ -83,6 +84,9 @@ F == "false"
 Apply(v, i) ==
   LET R(ret, val, exp) == [ret |-> ret, val |-> val, exp |-> exp] IN
   CASE i.op \in {"load", "conv"} -> R(v, v, NoArg)
+    [] i.op = "tas"        -> R(v, Num(1), NoArg)          \* atomic_flag::test_and_set: returns the old value, sets
+    [] i.op = "clear"      -> R(NoArg, Zero, NoArg)
+    [] i.op = "fence"      -> R(NoArg, v, NoArg)           \* atomic_thread_fence / atomic_signal_fence: no value effect
     [] i.op = "store"      -> R(NoArg, i.arg, NoArg)
     [] i.op = "xchg"       -> R(v, i.arg, NoArg)
     [] i.op = "assign"     -> R(i.arg, i.arg, NoArg)
